@@ -12,7 +12,7 @@ DEFAULT = {
     "w": {  # operation weights
         "apply": 6, "map": 7, "start": 6, "cancel": 4, "cancel_group": 3, "cancel_all": 1,
         "stop": 3, "flush": 2, "lock": 1, "unlock": 1, "open": 5, "y": 6, "idle": 3,
-        "intruder": 2, "probe": 0.5, "gac": 0.3, "reject": 0.7, "regroup": 0.8,
+        "intruder": 2, "probe": 0.5, "gac": 0.3, "reject": 0.7, "regroup": 0.8, "qput": 1.2, "burst": 0.15, "combo": 1.5,
     },
     "gate": 0.3,  # share of gate instructions in bodies
     "fault": 0.12,  # probability that a body / callback raises
@@ -44,6 +44,7 @@ class Gen:
         self.r = random.Random(seed)
         self.p = prof
         self.allow_scns = self.r.random() < prof["self_cancel_no_suspend"]
+        self.long = self.r.random() < prof.get("long", 0.08)  # long histories: two-digit task ids / group indices, many flushes ...
         self.nreq = 0
         self.names = []
 
@@ -64,7 +65,7 @@ class Gen:
         for _ in range(r.choice([0, 1, 1, 2, 2, 3])):
             x = r.random()
             if x < p["gate"]:
-                pre.append(["g"])
+                pre.append(["g"] if r.random() >= p.get("qwait", 0.08) else ["q"])
             elif depth == 0 and x < p["gate"] + p["inner_ops"]:
                 pre.append(["op", self.inner_op(pool)])
                 if not (self.allow_scns and r.random() < 0.5):
@@ -179,7 +180,7 @@ class Gen:
 
     def apply(self, pool, depth=0):
         r, p = self.r, self.p
-        num = r.choice([0, 1, 1, 2, 2, 3, 3, 5, 8]) if depth == 0 else r.choice([1, 1, 2])
+        num = r.choice([0, 1, 1, 2, 2, 3, 3, 5, 8] + ([12, 15] if self.long else [])) if depth == 0 else r.choice([1, 1, 2])
         s = {"op": "apply", "pool": pool["idx"], "num": num, "args": r.choice([0, 0, 1, 2, "list"]),
              "kwargs": r.choice([None, None, 0, 1, 2]), "gname": self.gname() if depth == 0 else None,
              "fname": self.fname(), "marker": r.random() < p["marker"]}
@@ -200,8 +201,8 @@ class Gen:
     def map(self, pool):
         r, p = self.r, self.p
         kind = r.choice(["map", "starmap", "doublestarmap"])
-        n = r.choice([0, 1, 2, 3, 4, 5, 6, 8, 12])
-        s = {"op": "map", "pool": pool["idx"], "kind": kind, "n": n, "nc": r.choice([1, 1, 2, 2, 3, 4]),
+        n = r.choice([0, 1, 2, 3, 4, 5, 6, 8, 12] + ([20, 30] if self.long else []))
+        s = {"op": "map", "pool": pool["idx"], "kind": kind, "n": n, "nc": r.choice([1, 1, 2, 2, 3, 4] + ([9, 12] if self.long else [])),
              "gname": self.gname(), "fname": self.fname(), "marker": r.random() < p["marker"],
              "iter": r.choice(["gen"] * 5 + ["list", "tuple", "dictvalues"]),
              "ecb": self.cb(pool), "ccb": self.cb(pool), "bodies": self.bodies(pool)}
@@ -226,7 +227,7 @@ class Gen:
         s = self.map(pool) if (r.random() < 0.7 or "nc" in causes) else self.apply(pool)
         s.pop("callraise", None)
         if "func" in causes:
-            s["func_kind"] = r.choice(["plain", "lambda", "builtin", "gen", "asyncgen"])
+            s["func_kind"] = r.choice(["plain", "plain", "lambda", "lambda", "builtin", "gen", "asyncgen", "method"])
             s.pop("bad", None)
         if "nc" in causes and s["op"] == "map":
             s["nc"] = r.choice([0, -1, -3])
@@ -256,7 +257,7 @@ class Gen:
                 if ps["marker"] and r.random() < p["callraise"]:
                     ps["callraise"] = sorted({r.randrange(6) for _ in range(2)})
         steps = []
-        n = r.randint(*p["steps"])
+        n = r.randint(*p["steps"]) if not self.long else r.randint(60, 160)
         for _ in range(n):
             pool = r.choice(pools)
             k = self.wchoice(p["w"])
@@ -266,7 +267,7 @@ class Gen:
             elif k == "map" and pool["cls"] == "T":
                 st = self.map(pool)
             elif k == "start" and pool["cls"] == "S":
-                st = {"op": "start", "pool": pool["idx"], "num": r.choice([0, 1, 1, 2, 2, 3, 4, 6])}
+                st = {"op": "start", "pool": pool["idx"], "num": r.choice([0, 1, 1, 2, 2, 3, 4, 6] + ([11] if self.long else []))}
             elif k in ("cancel", "cancel_group", "cancel_all", "flush", "lock", "unlock", "open"):
                 st = self.simple_op(k, pool)
             elif k == "stop" and pool["cls"] == "S":
@@ -292,6 +293,46 @@ class Gen:
                     new = self.apply(pool) if r.random() < 0.6 else self.map(pool)
                     new["gname"] = ["reuse_last"]
                     st = {"op": "seq", "steps": [{"op": "cancel_group", "pool": pool["idx"], "sel": ["live", r.randint(0, 5)]}, new]}
+            elif k == "combo":
+                # two operations inside one handle (no yield in between): a cancellation / flush / lock followed by a
+                # size assignment, a new request or another cancellation
+                first = self.simple_op(self.wchoice({"cancel": 3, "cancel_group": 4, "cancel_all": 1, "flush": 1, "lock": 0.4, "unlock": 0.4,
+                                                     "stop": 2 if pool["cls"] == "S" else 0}), pool)
+                kinds = {"cancel": 2, "cancel_group": 2, "flush": 1}
+                if p["w"].get("set_size", 0) > 0:
+                    kinds["set_size"] = 4
+                kinds["apply" if pool["cls"] == "T" else "start"] = 3
+                k2 = self.wchoice(kinds)
+                if k2 == "set_size":
+                    second = {"op": "set_size", "pool": pool["idx"], "v": r.choice([0, 1, 1, 2, 3, 5, None])}
+                else:
+                    second = self.simple_op(k2, pool, depth=1)
+                st = {"op": "seq", "steps": [first, second] if r.random() < 0.7 else [second, first]}
+            elif k == "burst":
+                # a dozen unnamed requests for the same function back to back: two-digit generated group indices
+                if pool["cls"] == "T":
+                    fn, kind, pi = self.fname(), r.choice(["apply", "map", "starmap"]), pool["idx"]
+                    subs = []
+                    for _ in range(r.randint(11, 14)):
+                        if kind == "apply":
+                            subs.append({"op": "apply", "pool": pi, "num": r.choice([0, 1]), "args": 0, "kwargs": None, "gname": None, "fname": fn,
+                                         "marker": True, "bodies": [{"pre": [["y", 1]]}]})
+                        else:
+                            subs.append({"op": "map", "pool": pi, "kind": kind, "n": r.choice([0, 1, 2]), "nc": 1, "gname": None, "fname": fn,
+                                         "marker": True, "iter": "list", "ecb": None, "ccb": None, "bodies": [{"pre": [["y", 1]]}]})
+                    st = {"op": "seq", "steps": subs}
+            elif k == "qput":
+                # feed the library queue some workers wait on; half of the time together with a cancellation of one of
+                # the waiting workers inside the same handle, in either order
+                put = {"op": "qput", "n": r.choice([1, 1, 2, 3])}
+                x = r.random()
+                canc = {"op": "cancel", "pool": pool["idx"], "ids": [["qwait", r.randint(0, 5)]]}
+                if x < 0.25:
+                    st = {"op": "seq", "steps": [put, canc]}
+                elif x < 0.5:
+                    st = {"op": "seq", "steps": [canc, put]}
+                else:
+                    st = put
             elif k == "grow_size":
                 st = {"op": "grow_size", "pool": pool["idx"], "by": r.choice([1, 1, 2, 3, None]), "twice": r.random() < 0.4}
             elif k == "set_size":
